@@ -3,7 +3,8 @@
    variance ...), kernel, bias and input position is inside the forall; convolution is
    only assumed homogeneous in the kernel. *)
 From Coq Require Import QArith.
-From QV Require Import BN.Fold.
+From QV Require Import BN.Fold Link.FoldLink.
+From QVGen Require Import FoldGen.
 Open Scope Q_scope.
 
 Theorem C15_folded_layer_is_conv_then_batchnorm :
@@ -36,3 +37,33 @@ Print Assumptions C15_folding_factor.
 Example C15_nonvacuous :
   folded_layer Q Qmult (fun k => 3 * k) 2 (1#2) (1#3) (1#4) 5 7 == conv_then_bn Q (fun k => 3 * k) 2 (1#2) (1#3) (1#4) 5 7.
 Proof. apply fold_equiv_no_quantizers. intros a k. ring. Qed.
+
+(* ---- get_folded_weights as /repo has it now (coq/gen/FoldGen.v, regenerated on every run) ---- *)
+Theorem C15_fold_translation_ok :
+  fold_translation_ok = true /\ gen_c2d_kernel_is_inv_times_kernel = true /\ gen_dw_kernel_is_inv_times_kernel = true.
+Proof. exact link_fold_ok. Qed.
+(* for every combination of use_bias / center / scale and every statistic, a convolution with the code's folded kernel plus the code's
+   folded bias IS the convolution followed by batch normalisation (absent parameters at their neutral values) *)
+Theorem C15_code_conv2d_folded_weights_are_conv_then_batchnorm :
+  forall (K : Type) (scale : Q -> K -> K) (conv : K -> Q), (forall a k, conv (scale a k) == a * conv k) ->
+  forall ub hb hg gamma beta mu r b k,
+  conv (scale (gen_c2d_inv hg gamma r) k) + gen_c2d_bias ub hb hg gamma beta mu r b ==
+  conv_then_bn K conv (eff_gamma hg gamma) (eff_beta hb beta) mu r (eff_bias ub b) k.
+Proof. intros K scale conv H ub hb hg gamma beta mu r b k.
+  rewrite H, link_c2d_inv, link_c2d_bias.
+  rewrite <- (fold_equiv_no_quantizers K scale conv H). unfold folded_layer, folded_kernel. rewrite H. reflexivity. Qed.
+Print Assumptions C15_code_conv2d_folded_weights_are_conv_then_batchnorm.
+Theorem C15_code_depthwise_folded_weights_are_conv_then_batchnorm :
+  forall (K : Type) (scale : Q -> K -> K) (conv : K -> Q), (forall a k, conv (scale a k) == a * conv k) ->
+  forall ub hb hg gamma beta mu r b k,
+  conv (scale (gen_dw_inv hg gamma r) k) + gen_dw_bias ub hb hg gamma beta mu r b ==
+  conv_then_bn K conv (eff_gamma hg gamma) (eff_beta hb beta) mu r (eff_bias ub b) k.
+Proof. intros K scale conv H ub hb hg gamma beta mu r b k.
+  rewrite H, link_dw_inv, link_dw_bias.
+  rewrite <- (fold_equiv_no_quantizers K scale conv H). unfold folded_layer, folded_kernel. rewrite H. reflexivity. Qed.
+Print Assumptions C15_code_depthwise_folded_weights_are_conv_then_batchnorm.
+(* a layer without a convolution bias and without a batch-norm offset still has a folded bias: - mean * gamma * rsqrt(var + eps) *)
+Theorem C15_code_folded_bias_without_bias_and_offset : forall hg gamma beta mu r b,
+  gen_c2d_bias false false hg gamma beta mu r b == - (mu * inv (eff_gamma hg gamma) r).
+Proof. intros [] gamma beta mu r b; unfold gen_c2d_bias, inv, eff_gamma; ring. Qed.
+Print Assumptions C15_code_folded_bias_without_bias_and_offset.
